@@ -247,6 +247,9 @@ func genOrderReference(repo string) error {
 var orderRefCache *orderRef
 
 func runOrderDrift(c *Ctx, pkgs []string) {
+	if !referenceConfig(c) {
+		return
+	}
 	if orderRefCache == nil {
 		b, err := os.ReadFile(filepath.Join(refDir, "order.json"))
 		if err != nil {
